@@ -131,6 +131,131 @@ func (s *seqRun) buildOp(top []byte) {
 	}
 }
 
+// fillTo consumes free blocks with single-block writes to /filler until exactly k are left.
+func (s *seqRun) fillTo(k uint64) bool {
+	f := s.handleOf(s.root(), "filler")
+	if f == nil {
+		f = s.mk("create", s.root(), "filler")
+		if f == nil {
+			return false
+		}
+	}
+	// append whole blocks; an append may need an index block as well, so approach k from above
+	for i := 0; i < 100000 && !s.dead; i++ {
+		free := s.freeCounts()[0]
+		if free == k {
+			return true
+		}
+		if free < k {
+			return false
+		}
+		sz := s.objs[hx(f)].size
+		next := (sz + 4095) / 4096
+		need := uint64(1)
+		if next == 8 || (next >= 8+512 && (next-8-512)%512 == 0) {
+			need = 2 // data block + a new index block
+		}
+		if next == 8+512 {
+			need = 3
+		}
+		if free-k < need {
+			// cannot hit k exactly by appending here: use a second filler
+			f2 := s.handleOf(s.root(), "filler2")
+			if f2 == nil {
+				f2 = s.mk("create", s.root(), "filler2")
+				if f2 == nil {
+					return false
+				}
+			}
+			sz2 := s.objs[hx(f2)].size
+			if (sz2+4095)/4096 >= 8 {
+				return false
+			}
+			s.opWrite(f2, sz2, 4096, 2, s.mkData(4096))
+			continue
+		}
+		s.opWrite(f, next*4096, 4096, 2, s.mkData(4096))
+		if s.lastStatus != nfstypes.NFS3_OK {
+			return false
+		}
+	}
+	return false
+}
+
+// nospcScenarios: every allocation path at the exact boundary of a full disk.  With k = 0, 1, 2
+// free blocks: a WRITE that needs a data block and a new index block (block 8 of a file with
+// eight direct blocks), one that needs two index blocks and a data block (first double-indirect
+// block), MKDIR, SYMLINK and CREATE; each failing request must leave no trace (C09: tree and free
+// counts; C10: cached inodes = logical disk), and once space has been freed the same file must be
+// writable and must not share a block with anybody (C04/C05: structure checker; read-back).
+func (s *seqRun) nospcScenarios(h int) {
+	for _, k := range []uint64{1, 0, 2} {
+		for variant := 0; variant < 2 && !s.dead; variant++ {
+			tag := fmt.Sprintf("history %d nospc k=%d variant=%d", h, k, variant)
+			a := s.mk("create", s.root(), "a")
+			b := s.mk("create", s.root(), "b")
+			if a == nil || b == nil {
+				return
+			}
+			s.opWrite(a, 0, 8*4096, 2, s.mkData(8*4096)) // eight direct blocks, no index block yet
+			if !s.fillTo(k) {
+				s.deleteTree(s.root())
+				continue
+			}
+			s.c09 = true
+			s.afterOp("prime", false) // reference dump and free counts
+			off := uint64(8 * 4096)
+			if variant == 1 {
+				off = (8 + 512) * 4096
+			}
+			s.opWrite(a, off, 4096, 2, s.mkData(4096)) // needs 2 (3) blocks
+			failedA := s.lastStatus != nfstypes.NFS3_OK
+			s.coherenceAfter(failedA)
+			s.opCreate("mkdir", s.root(), "newdir", 0, nil) // needs 1 block for "." and ".."
+			s.coherenceAfter(s.lastStatus != nfstypes.NFS3_OK)
+			s.opCreate("symlink", s.root(), "newlink", 0, s.mkData(100)) // needs 1 block
+			s.coherenceAfter(s.lastStatus != nfstypes.NFS3_OK)
+			s.c09 = false
+			// somebody else takes what is left
+			// (its first half is zeros: read as an index block it has free slots, so that a file
+			// wrongly using this block as its index block gets as far as committing)
+			bdata := s.mkData(4096)
+			for x := 0; x < 2048; x++ {
+				bdata[x] = 0
+			}
+			s.opWrite(b, 0, 4096, 2, bdata)
+			bOk := s.lastStatus == nfstypes.NFS3_OK
+			// space comes back; the file of the failed write is used again
+			s.opRemove("remove", s.root(), "filler")
+			s.opRemove("remove", s.root(), "filler2")
+			s.waitIdle()
+			adata := s.mkData(4096)
+			s.opWrite(a, off, 4096, 2, adata)
+			s.fsckPoint(tag + " after reuse")
+			if bOk {
+				var rd nfstypes.READ3res
+				if s.guarded("readback", func() {
+					rd = s.srv.NFSPROC3_READ(nfstypes.READ3args{File: mkfh3(b), Offset: 0, Count: 4096})
+				}) && (rd.Status != nfstypes.NFS3_OK || string(rd.Resok.Data) != string(bdata)) {
+					s.oracle("C04", "block-shared-between-files", fmt.Sprintf("%s: with %d free blocks a WRITE to /a at offset %d failed=%v; /b then took the last block; after space was freed /a was written at that offset again and /b no longer reads back what was written to it (status %d)", tag, k, off, failedA, rd.Status))
+				}
+			}
+			s.coherence()
+			s.deleteTree(s.root())
+		}
+	}
+}
+
+// coherenceAfter: caches = logical disk (C10); after a FAILED request a difference is also a trace
+// that request left behind (C09).
+func (s *seqRun) coherenceAfter(failed bool) {
+	n := s.nOracle
+	s.coherence()
+	if failed && s.nOracle > n {
+		s.oracle("C09", "failed-op-left-cached-state", "after a request that failed with NOSPC the server's cached inodes differ from the logical disk (see the C10 line above): the failed request left a trace that later requests build on")
+	}
+}
+
 func cmdReclaim(fs *flag.FlagSet, args []string) {
 	seed := fs.Uint64("seed", 1, "seed")
 	nhist := fs.Int("hists", 3, "histories")
@@ -165,6 +290,10 @@ func cmdReclaim(fs *flag.FlagSet, args []string) {
 		baseDump := s.dumpTree()
 		s.fsckPoint("empty file system")
 		var allocated uint64
+		s.nospcScenarios(h)
+		if after := s.freeCounts(); after != base && !s.dead {
+			s.oracle("C05", "space-not-reclaimed", fmt.Sprintf("history %d (disk %d): after the full-disk scenarios and removing everything the allocators report %d free blocks / %d free inodes; the empty file system had %d / %d", h, sz, after[0], after[1], base[0], base[1]))
+		}
 		// directed: REMOVE (and RENAME over) a file whose truncation is still being finished in the background
 		for k := 0; k < 4 && !s.dead; k++ {
 			s.opCreate("create", s.root(), "victim", 0, nil)
